@@ -45,6 +45,10 @@ def main(tier):
     cfgs = kernels.config_space(tier, common.seed())
     if tier == "quick":
         cfgs = cfgs[::6]
+    else:
+        # two builds x read/write safety over ~115k configurations is beyond a run; an eighth per run, rotated by the seed
+        k = common.seed() % 8
+        cfgs = cfgs[k::8]
     totals = []
     for mode in ("safety_r", "safety_w"):
         t = kernel_check.run_all(mode, cfgs)
@@ -96,7 +100,9 @@ def main(tier):
         "queries": nq, "obligation_sites_by_kind": sites, "reachability_witnesses": nw,
         "not_encoded": not_encoded[:20], "not_encoded_count": len(not_encoded),
         "candidates_classified": seen, "structure_level": st,
-        "bounds": {"buffer_length": "0..%d bytes, and the null buffer" % kernel_check.NMAX,
+        "bounds": {"configurations": "quick: every sixth configuration of the quick space; thorough: every eighth configuration of the full "
+                                     "space (~115k), the eighth chosen by the seed; structure level: corpus",
+                   "buffer_length": "0..%d bytes, and the null buffer" % kernel_check.NMAX,
                    "builds": "clang -O2 and clang -O1 -fsanitize=undefined,bounds -fsanitize-trap=all",
                    "outside": "text output / UpdateFromText (std::string, iostream: not encodable); buffers >= 2^61 bytes"},
         "explanation": "states = configurations/structures; transitions = reachability queries, one per access/trap/assert/flag site and entry point",
